@@ -4,7 +4,7 @@
 //! @assume whether every log statement applies the helpers is a whole-program question outside the claim
 use super::*;
 
-/// P = position of the first dot (P == L: no dot).  The label before the first dot is concrete filler (the function
+/// P = position of the first dot (P == L: no dot).  The label before the first dot is concrete filler (letters, a digit, '-' and '_') (the function
 /// only searches it for a dot; a symbolic label makes `str::find` + `replace_range` run out of memory in symex), the
 /// host part after the first dot is symbolic over {a, b, .}.
 fn scrub_sni_shape<const P: usize, const L: usize, const OUT: usize>() {
@@ -14,7 +14,8 @@ fn scrub_sni_shape<const P: usize, const L: usize, const OUT: usize>() {
     let mut i = 0;
     while i < L {
         if i < P {
-            v.push(b'q');
+            // filler of the credentials label: letters, digits and the punctuation a label may contain (never a dot)
+            v.push(b"q-_7"[i % 4]);
         } else if i == P {
             v.push(b'.');
         } else {
@@ -30,7 +31,7 @@ fn scrub_sni_shape<const P: usize, const L: usize, const OUT: usize>() {
         assert!(ob.len() == L, "C20.sni.nodot_len: an SNI without credentials label must be unchanged");
         let mut i = 0;
         while i < L {
-            assert!(ob[i] == b'q', "C20.sni.nodot: an SNI without credentials label must be unchanged");
+            assert!(ob[i] == b"q-_7"[i % 4], "C20.sni.nodot: an SNI without credentials label must be unchanged");
             i += 1;
         }
     } else {
